@@ -42,6 +42,8 @@ pub mod sched {
   static DEPTH: AtomicU32 = AtomicU32::new(0);
   static MAX_DEPTH: AtomicU32 = AtomicU32::new(1);
   static STUCK: AtomicBool = AtomicBool::new(false);
+  /// the top-level thread is parked and the scheduler is running the remaining actors
+  static IN_PARK: AtomicBool = AtomicBool::new(false);
   static STUCK_IS_BUG: AtomicBool = AtomicBool::new(false);
   static SPINS: AtomicU32 = AtomicU32::new(0);
   static SPIN_BUDGET: AtomicU32 = AtomicU32::new(2);
@@ -128,6 +130,9 @@ pub mod sched {
   pub fn timeouts_fired() -> u32 {
     TIMEOUTS_FIRED.load(Relaxed)
   }
+  pub fn in_park() -> bool {
+    IN_PARK.load(Relaxed)
+  }
   pub fn current() -> usize {
     CUR.load(Relaxed)
   }
@@ -211,12 +216,15 @@ pub mod sched {
       return;
     }
     // the top-level thread is blocked: only the others can make progress
+    IN_PARK.store(true, Relaxed);
     while ENABLED.load(Relaxed) && pending() > 0 {
       run_one();
       if TOKENS[me].swap(false, Relaxed) {
+        IN_PARK.store(false, Relaxed);
         return;
       }
     }
+    IN_PARK.store(false, Relaxed);
     stuck();
   }
 
